@@ -47,15 +47,14 @@ TRUSTED_EXTRA = [
 # order in which a violation observed outside the proved region is attributed to a named defect
 PRIORITY = [
     # trusted deserialization
-    "crash:enum-mapping", "unnormalised:array-of-enum", "dropped:set-items",
-    "optional-unchecked:non-none-option", "optional-unchecked:none-first", "unnormalised:optional-immutable-set",
+    "unnormalised:optional-immutable-set", "unnormalised:anyof-enum",
     "none-attribute-hash:set-of-structures",
     "dropped:undeclared-keys", "unnormalised:boolean-string", "defaults-not-applied",
     "unnormalised:enum-name", "unnormalised:inline-dict", "unnormalised:float-int",
     "mapper:cascade", "mapper:fallback",
     # fast serialization: instance-level causes first, then declaration-level ones
     "fast:extras-dropped", "fast:compact-conditions",
-    "fast:tuple-index", "fast:positional-index", "fast:json-dumps", "fast:untyped-raw", "fast:inline-none-keys",
+    "fast:positional-index:deque", "fast:json-dumps", "fast:untyped-raw", "fast:inline-none-keys",
     "fast:nonfast-nested", "fast:mapper-cascade", "fast:multi-wrapper",
 ]
 
@@ -179,10 +178,6 @@ def judge_trusted(case, impl, model):
                         detail = json.dumps(sx["ok"])[:150] + " vs " + json.dumps(sy["ok"])[:150]
             if what:
                 tag_list = list(model.get("declDefects", [])) + list(model.get("docIssues", []))
-                if not mapper_free and any(m in ("complex", "complex-list") for n, m in case.get("mappers", [])
-                                           if n != cls["name"]):
-                    # a nested class with an unsupported mapper can only be reached through an Optional
-                    tag_list.append("optional-unchecked:non-none-option")
                 if not mapper_free and model.get("cascade"):
                     tag_list.append("mapper:cascade")
                 if not mapper_free and _uses_unmapped_names(cls, case["doc"], case.get("mapperSpec") or {}):
